@@ -68,7 +68,7 @@ fn other(r: &mut Rng, k: &[u8], k2: &[u8]) -> Vec<Vec<u8>> {
         1 => vec![v(b"GETSET"), v(k), v(b"gs")],
         2 => vec![v(b"MSET"), v(k), v(b"m1"), v(k2), v(b"m2")],
         3 => vec![v(b"PERSIST"), v(k)],
-        4 => vec![v(b"RENAME"), v(k), v(k2)],
+        4 => if r.chance(1, 4) { vec![v(b"RENAME"), v(k), v(k)] } else { vec![v(b"RENAME"), v(k), v(k2)] },
         5 => vec![v(b"RENAMENX"), v(k), v(k2)],
         6 => vec![v(b"DEL"), v(k)],
         7 => vec![v(b"APPEND"), v(k), v(b"x")],
@@ -228,6 +228,37 @@ pub fn gen(seed: u64, n: usize, _tier: &str) -> Vec<Case> {
             ops.push(sweep_op());
             sdump(&mut ops);
             cases.push(Case { id: format!("stream-{}", id), ops, outs: vec![] }); id += 1;
+        }
+    }
+    // (d) RENAME / RENAMENX of a key with a TTL onto its own name and back and forth between two names:
+    // the deadline index must still hold the key afterwards, so that the key-space-wide commands
+    // (which expire through the index only) and the sweeper drop it after the deadline
+    let creators: Vec<Vec<Vec<u8>>> = vec![v(&[b"SET", b"t", b"v"]), v(&[b"RPUSH", b"cl", b"a"]), v(&[b"SADD", b"cs", b"a"]),
+        v(&[b"HSET", b"ch", b"f", b"1"]), v(&[b"XADD", b"sx", b"5-0", b"f", b"v"])];
+    for cr in &creators {
+        let key = cr[1].clone();
+        let moves: Vec<Vec<Vec<Vec<u8>>>> = vec![
+            vec![vec![b"RENAME".to_vec(), key.clone(), key.clone()]],
+            vec![vec![b"RENAMENX".to_vec(), key.clone(), key.clone()]],
+            vec![vec![b"RENAME".to_vec(), key.clone(), b"k2".to_vec()], vec![b"RENAME".to_vec(), b"k2".to_vec(), key.clone()]],
+            vec![vec![b"RENAME".to_vec(), key.clone(), key.clone()], vec![b"RENAME".to_vec(), key.clone(), b"k2".to_vec()]],
+            vec![vec![b"RENAMENX".to_vec(), key.clone(), b"k2".to_vec()], vec![b"RENAME".to_vec(), b"k2".to_vec(), b"k2".to_vec()]],
+        ];
+        for mv in &moves {
+            let mut ops = vec![conn_op(1), cmd_op(1, &[b"VERIF", b"SWEEP", b"PAUSE"])];
+            push(&mut ops, 1, cr);
+            ops.push(cmd_op(1, &[b"PEXPIRE", &key, b"200"]));
+            for m in mv { push(&mut ops, 1, m); }
+            ops.push(cmd_op(1, &[b"VERIF", b"INDEX", b"0"]));
+            ops.push(cmd_op(1, &[b"DBSIZE"]));
+            ops.push(sleep_op(300));
+            // no command names the key: only the index can tell that it is due
+            ops.push(cmd_op(1, &[b"DBSIZE"])); ops.push(cmd_op(1, &[b"KEYS", b"*"])); ops.push(cmd_op(1, &[b"RANDOMKEY"]));
+            ops.push(cmd_op(1, &[b"VERIF", b"INDEX", b"0"]));
+            ops.push(sweep_op());
+            ops.push(cmd_op(1, &[b"DBSIZE"])); ops.push(cmd_op(1, &[b"KEYS", b"*"]));
+            ops.push(cmd_op(1, &[b"TYPE", &key])); ops.push(cmd_op(1, &[b"TYPE", b"k2"]));
+            cases.push(Case { id: format!("selfren-{}", id), ops, outs: vec![] }); id += 1;
         }
     }
     cases
